@@ -383,7 +383,7 @@ pub fn run(cfg: &RunCfg) -> PropRun {
     known_probes(&mut run);
 
     // random ASTs
-    let total = cfg.pick(40_000, 2_000_000);
+    let total = cfg.pick(300_000, 3_000_000);
     let out = campaign(cfg, ID, "ast", total, case_strategy, check_case);
     run.absorb(out);
     if let Some(n) = run.stats.known_hits.get(F_LT_MAJOR) {
